@@ -12,13 +12,14 @@ import base64
 import itertools
 import json
 import multiprocessing
-import traceback
 
 from ..framework import Check, Violation
 from ..xplore import h64
 from ..gen import certs as G
 
 ABSENT = "<absent>"
+KINDS = [("x509_pem", "p256"), ("x509_pem", "p384"), ("x509_pem", "k1"), ("sgx_attestation_key", "p256"),
+         ("sgx_quote", "p256")]
 ROOTS = {1: "root", 2: "sgx_root"}
 DAY = G.timedelta(days=1)
 
@@ -67,7 +68,7 @@ def walk(d):
 
 
 class _Enough(Exception):
-    """Three executions of one case ran out of budget: the case is cut short (and says so)."""
+    """An execution ran out of budget: the case is cut short (and says so)."""
 
 
 class C16(Check):
@@ -82,15 +83,18 @@ class C16(Check):
             "and version 2 (all certificates / certificates + attestation key + quote), every non-empty "
             "target subset (n = 5: singletons and all); (c) every field of every element kind absent / "
             "null / number / list / object / boolean / empty / non-hex / odd hex / spaced hex / short / "
-            "long, unknown and swapped element types, unknown and duplicate names, re-signed over- and "
+            "long; every sequence of 1..3 element kinds (P-256 / P-384 / secp256k1 certificate, attestation "
+            "key, quote) chained below a valid certificate, each really signed by its parent; unknown and "
+            "swapped element types, unknown and duplicate names, re-signed over- and "
             "under-long SGX messages, other key encodings; (d) rule-built chains, cycles, rho shapes, "
             "stars of 12 elements. An execution is distinct by (part, load outcome or exception type, "
             "validation outcome classes, round-trip outcome).")
     assumptions = [
         "any exception raised by from_jsonfile counts as 'reports an error' (the tools catch Exception)",
         "the statement does not say which documents must load; only what holds for those that do",
-        "step budget: 2*10^5 executed lines of middleware code per call (load, to_dict, validate, "
-        "save) with a 30 s wall-clock alarm behind it",
+        "step budget: 4*10^4 executed lines of middleware code per call (load, to_dict, validate, "
+        "save; the longest legitimate call on 12 elements executes about 7.8*10^3) with a 30 s "
+        "wall-clock alarm behind it; the first exhausted budget ends its case, the sixth ends the run",
         "roots of trust for validation: the generator's secp256k1 root key / root certificate with "
         "the clock fixed inside every generated validity period",
         "values are compared after save/load as (verdict, value, tweak); SGX quotes by their field dictionary",
@@ -108,10 +112,11 @@ class C16(Check):
         self.root2 = G.pem_of(self.w2.cert("root", "root", G.T0 - 4000 * DAY, G.T0 + 4000 * DAY))
         self._c = {}
         self.shared = multiprocessing.get_context("fork").Array("i", 4096)
+        self.hangs = multiprocessing.get_context("fork").Value("i", 0)
 
     def bounds(self):
         return {"max_elements_all_functions": self.nmax, "rule_built_elements": 12,
-                "step_budget_lines": 200000, "wall_backstop_s": 30}
+                "step_budget_lines": 40000, "wall_backstop_s": 30}
 
     def alphabets(self):
         return {"signed_by": ["<element i>", "<root>", "nobody", 7],
@@ -130,6 +135,8 @@ class C16(Check):
             for idx in range(4):
                 cs.append({"kind": "fields", "ver": ver, "idx": idx})
         cs.append({"kind": "special"})
+        for first in range(len(KINDS)):
+            cs.append({"kind": "kinds", "first": first})
         cs.append({"kind": "long", "ver": 1})
         cs.append({"kind": "long", "ver": 2})
         # small documents first: the shortest counterexamples get recorded before the per-key cap
@@ -144,8 +151,10 @@ class C16(Check):
         k = case["kind"]
         if k == "one":
             self.evaluate(case["text"], case.get("label", "replay"), stats, vs)
+        elif self.hangs.value >= 6:
+            stats.bump("capped")       # non-termination was reported several times: stop early
+            return vs
         else:
-            self.budget_hits = 0
             try:
                 getattr(self, "run_" + k)(case, stats, vs)
             except _Enough:
@@ -395,6 +404,39 @@ class C16(Check):
                     d["elements"][i][fld] = spell(e[fld])
                     self.evaluate(json.dumps(d), "special:hex-spelling", stats, vs)
 
+    # ---- (c') every kind under every kind, ancestors valid -----------------------------------
+    def run_kinds(self, case, stats, vs):
+        """root -> ca (P-256 certificate) -> k0 -> k1 -> k2 for every sequence of 1..3 kinds out of
+        KINDS, each element really signed by its parent's key where the parent has one (of whatever
+        curve), so that validation reaches every element; kinds that cannot certify (quote, non-P-256
+        certificate under an SGX element) included."""
+        w = self.w2
+        ca = w.x509_element("ca", "sgx_root", w.cert("ca", "root", G.T0 - 100 * DAY, G.T0 + 100 * DAY))
+        for n in (1, 2, 3):
+            for rest in itertools.product(range(len(KINDS)), repeat=n - 1):
+                seq = [KINDS[case["first"]]] + [KINDS[i] for i in rest]
+                els = [ca]
+                pname, pkey, pcurve = "ca", "ca", "p256"
+                for i, (kind, curve) in enumerate(seq):
+                    name = "k%d" % i
+                    signer, scurve = (pkey, pcurve) if pkey is not None else ("stranger", "p256")
+                    if kind == "x509_pem":
+                        els.append(w.x509_element(name, pname, w.cert(
+                            name, signer, G.T0 - 100 * DAY, G.T0 + 100 * DAY, scurve=curve, icurve=scurve)))
+                        pkey, pcurve = name, curve
+                    elif kind == "sgx_attestation_key":
+                        els.append(w.att_element(name, pname, signer, key_name=name, signer_curve=scurve))
+                        pkey, pcurve = name, "p256"
+                    else:
+                        els.append(w.quote_element(name, pname, signer, signer_curve=scurve))
+                        pkey, pcurve = None, None
+                    pname = name
+                names = ["k%d" % i for i in range(n)]
+                tls = [[names[-1]], list(names), ["ca"] + names] + ([[x] for x in names[:-1]])
+                for tl in tls:
+                    d = {"version": 2, "targets": tl, "elements": list(reversed(els))}
+                    self.evaluate(json.dumps(d), "kinds:%s" % seq[-1][0], stats, vs)
+
     # ---- (d) twelve elements ------------------------------------------------------------------
     def run_long(self, case, stats, vs):
         ver = case["ver"]
@@ -452,24 +494,14 @@ class C16(Check):
     # ---- one execution -----------------------------------------------------------------------
     def viol(self, vs, key, text, label, observed, expected, clause):
         if ":nontermination:" in key:
-            self.budget_hits = getattr(self, "budget_hits", 0) + 1
-            if self.budget_hits > 3:
-                raise _Enough()
+            # one hit ends the case; a handful over all workers ends the run (see run_case)
+            with self.hangs.get_lock():
+                self.hangs.value += 1
+            vs.append(Violation("C16", key, {"kind": "one", "text": text, "label": label}, None,
+                                observed, expected, clause))
+            raise _Enough()
         vs.append(Violation("C16", key, {"kind": "one", "text": text, "label": label}, None,
                             observed, expected, clause))
-
-    def where(self, exc):
-        """(element class or '-', innermost middleware frame) of an exception raised by the code under test."""
-        cls, frame = "-", "-"
-        for fs, _ in traceback.walk_tb(exc.__traceback__):
-            fn = fs.f_code.co_filename
-            if fn.startswith(self.impl.prefix):
-                frame = "%s:%s" % (fn[len(self.impl.prefix):], fs.f_code.co_name)
-                slf = fs.f_locals.get("self")
-                if slf is not None and type(slf).__name__.startswith("HSMCertificate") and \
-                        "Element" in type(slf).__name__:
-                    cls = type(slf).__name__
-        return cls, frame
 
     def validate(self, cert, version):
         from ..certharness import norm_result
@@ -507,7 +539,7 @@ class C16(Check):
             if td[0] == "budget":
                 self.viol(vs, "C16:nontermination:save:" + label, text, label, {"budget": td[1]}, {}, "save")
             else:
-                cls, frame = self.where(td[1])
+                cls, frame = self.impl.where(td[1])
                 self.viol(vs, "C16:save-raises:%s:%s:%s" % (type(td[1]).__name__, cls, frame), text, label,
                           {"to_dict": repr(td[1])}, {"to_dict": "a dictionary"}, "saving a loaded certificate")
             return
@@ -528,7 +560,7 @@ class C16(Check):
             return
         tkinds = sorted({types[t] for t in d["targets"]})
         if r1[0] == "raise":
-            cls, frame = self.where(r1[1])
+            cls, frame = self.impl.where(r1[1])
             self.viol(vs, "C16:validate-raises:%s:%s:%s" % (type(r1[1]).__name__, cls, frame),
                       text, label, {"validate": repr(r1[1]), "targets": d["targets"]},
                       {"validate": "an entry per target"}, "validation yields a verdict for every target")
